@@ -31,6 +31,7 @@ type CE struct {
 	Reads []memRead
 	V     ssa.Value // the value after resolution through phis / local stores / interface wrapping
 	V0    ssa.Value // the value as written (before resolution)
+	Atom  *Atom     // for a boolean stored into a tracked local: its decoded atom at store time
 }
 
 type canonCtx struct {
@@ -154,6 +155,12 @@ func (c *canonCtx) loc(v ssa.Value) string {
 	case *ssa.Alloc:
 		c.deps[x] = true
 		return "new@" + c.nm(x)
+	case *ssa.FreeVar:
+		if c.st != nil {
+			if b := c.st.boundFree(x); b != nil {
+				return c.loc(b)
+			}
+		}
 	case *ssa.Phi:
 		if r, ok := c.resolvePhi(x); ok {
 			return c.loc(r)
@@ -243,6 +250,11 @@ func (c *canonCtx) val(v ssa.Value) string {
 	case *ssa.Parameter:
 		return c.param(x)
 	case *ssa.FreeVar:
+		if c.st != nil {
+			if b := c.st.boundFree(x); b != nil {
+				return c.val(b)
+			}
+		}
 		return "free:" + x.Name()
 	case *ssa.Global:
 		return "&" + x.String()
@@ -405,6 +417,12 @@ func (c *canonCtx) call(x *ssa.Call) string {
 			_ = mc
 			name = "closure:" + fn.Name()
 		}
+	} else if fn, ok := c.resolvedCallee(cc.Value); ok {
+		// a function-typed parameter of an inlined helper bound to a named function (or method
+		// expression) at the call site: the same call as if it were written out there
+		name = fn.String()
+		args = cc.Args
+		pure = c.ex != nil && c.ex.Pure != nil && c.ex.Pure.pure[fn]
 	} else {
 		name = "dyn"
 		args = append([]ssa.Value{cc.Value}, cc.Args...)
@@ -423,6 +441,36 @@ func (c *canonCtx) call(x *ssa.Call) string {
 	}
 	c.deps[x] = true
 	return name + "@" + c.nm(x) + "(" + as + ")"
+}
+
+// resolvedCallee: the named function a dynamic callee value denotes on this path.
+func (c *canonCtx) resolvedCallee(v ssa.Value) (*ssa.Function, bool) {
+	if c.st == nil || c.ex == nil {
+		return nil, false
+	}
+	fn, ok := c.ex.Resolve(c.st, v).(*ssa.Function)
+	if !ok || fn == nil {
+		return nil, false
+	}
+	// a method expression (T.m) is a synthetic thunk around the method: name the method itself
+	if strings.HasPrefix(fn.Synthetic, "thunk") || strings.HasSuffix(fn.Name(), "$thunk") {
+		var target *ssa.Function
+		n := 0
+		for _, b := range fn.Blocks {
+			for _, in := range b.Instrs {
+				if call, ok := in.(*ssa.Call); ok {
+					if f := call.Call.StaticCallee(); f != nil {
+						target = f
+						n++
+					}
+				}
+			}
+		}
+		if n == 1 {
+			return target, true
+		}
+	}
+	return fn, true
 }
 
 // load renders a memory read. Reads of tracked local variables resolve to the
@@ -474,6 +522,14 @@ func (ex *Explorer) Resolve(st *State, v ssa.Value) ssa.Value {
 			if st != nil {
 				if a := st.boundArg(x); a != nil && a.V != nil && a.V != v {
 					v = a.V
+					continue
+				}
+			}
+			return v
+		case *ssa.FreeVar:
+			if st != nil {
+				if b := st.boundFree(x); b != nil && b != v {
+					v = b
 					continue
 				}
 			}
